@@ -30,7 +30,7 @@ for (pid, v), (dc, dp, tests, tier, verdict, viol) in sorted(final.items()):
     am = json.load(open(os.path.join(src, "meta.json"))).get(v, {})
     mk = re.search(r"unit=(\S+) kind=(\S+)", viol)
     valid = dc == "0" and dp != "0" and tests.startswith("4 failed, 217 passed")
-    meta = dict(property=pid, variant=name, files=am.get("files"), what=am.get("what"), needs=am.get("needs"),
+    meta = dict(property=pid, variant=name, files=am.get("files"), what=am.get("what"), needs=am.get("needs"), kind=am.get("kind"),
                 author="independent sub-agent (saw only the property text and a private worktree of /repo)", agent_ran=am.get("ran"),
                 confirmed=dict(command="tools/seeded_eval.sh %s %s" % (pid, v), patch_applies=True, demo_exit_on_clean_copy=int(dc),
                                demo_exit_on_patched_copy=int(dp), repository_tests_on_patched_copy=tests, valid_seeded_change=valid,
